@@ -28,6 +28,12 @@ def runs(index, entries=("backward", "mtl_backward")):
     if key not in _CACHE:
         _CACHE.clear()
         _CACHE[key] = (PipeAnalysis(index), {})
+        _STAGE.clear()
+        _STAGE.update(stage_functions(index))
+        if not _STAGE:
+            from .. import AnalysisError
+
+            raise AnalysisError("anchor vanished: no method of the transform package calls torch.autograd.grad")
     P, done = _CACHE[key]
     if "backward" in entries and "backward" not in done:
         out = []
@@ -47,9 +53,46 @@ def runs(index, entries=("backward", "mtl_backward")):
     return P, [r for e in entries for r in done[e]]
 
 
-def in_stage(e, name="_differentiate") -> bool:
-    """The event was emitted by the differentiation stage or by a helper running on its behalf (generator of row blocks, ...)."""
-    return name in e["function"] or any(name in f for f in e.get("stack", ()))
+def compute_method_name(index) -> str:
+    """Name of the abstract method that Transform.__call__ runs after the key check (`_compute` today): found by its role."""
+    import ast
+
+    from .. import AnalysisError
+
+    base = index.get_class("torchjd.autojac._transform.base.Transform")
+    call = base.lookup("__call__")
+    if call is None:
+        raise AnalysisError("anchor vanished: Transform.__call__")
+    abstract = {n for n, f in base.methods.items() if any("abstractmethod" in ast.unparse(d) for d in f.node.decorator_list)}
+    names = [n.func.attr for n in ast.walk(call[1].node) if isinstance(n, ast.Call) and isinstance(n.func, ast.Attribute) and isinstance(n.func.value, ast.Name)
+             and n.func.value.id == "self" and n.func.attr in abstract]
+    if len(set(names)) != 1:
+        raise AnalysisError(f"anchor vanished: the abstract method applied by Transform.__call__ (candidates {sorted(set(names))})")
+    return names[0]
+
+
+_STAGE: set = set()
+
+
+def stage_functions(index) -> set:
+    """Qualified names of the differentiation stages: the methods of the transform package that (possibly through a nested
+    closure) call torch.autograd.grad."""
+    import ast
+
+    out = set()
+    for fi in index.all_functions("torchjd.autojac._transform"):
+        if fi.parent is not None:
+            continue
+        for n in ast.walk(fi.node):
+            if isinstance(n, ast.Call) and ast.unparse(n.func).endswith("autograd.grad"):
+                out.add(fi.qualname)
+    return out
+
+
+def in_stage(e) -> bool:
+    """The event was emitted by a differentiation stage or by a helper running on its behalf (generator of row blocks, ...)."""
+    fns = [e["function"]] + list(e.get("stack", ()))
+    return any(f == q or f.startswith(q + ".") for f in fns for q in _STAGE)
 
 
 def evs(res, *kinds):
